@@ -162,13 +162,14 @@ class ElabPass:
         # From its first visit by an elaboration pass on, a module takes additions from the passes only.
         # (Their results are cached per pass, so anything the designer added later would skip the passes already run.)
         module._elaboration_started = True
-        # The same goes for the Bundle definitions it uses: several passes work from their member lists.
-        for bundle_inst in module.bundles.values():
-            _close_bundle_definition(bundle_inst.of)
-        for instbundle in module.instbundles.values():
-            _close_bundle_definition(instbundle.bundle)
 
         try:
+            # The same goes for the Bundle definitions it uses: several passes work from their member lists.
+            for bundle_inst in module.bundles.values():
+                _close_bundle_definition(bundle_inst.of)
+            for instbundle in module.instbundles.values():
+                _close_bundle_definition(instbundle.bundle)
+
             # Depth-first traverse instances, ensuring their targets are defined
             for inst in module.instances.values():
                 self.elaborate_instance_base(inst)
